@@ -122,7 +122,11 @@ func (w *World) kbUpdate(o *Obs) {
 		// response parked, else the session's user (enrolment, resend), else
 		// the login already parked in the session (resend on the validate page)
 		owner := -1
-		forPID, _ := o.sessPut("sms_pending")
+		// (the response itself records for whom it sent the code)
+		forPID, _ := o.sessPut("sms_secret_pid")
+		if forPID == "" {
+			forPID, _ = o.sessPut("sms_pending")
+		}
 		if forPID == "" {
 			forPID = o.uidBefore()
 		}
